@@ -31,8 +31,8 @@ def scenarios(tier):
     for pat in ('left', 'back', 'node', 'none'):
         out.append({'name': f'smear_mask[{pat}]', 'fn': 'scn_smear', 'kwargs': {'pat': pat}})
     out.append({'name': 'c_mask_from_centres', 'fn': 'scn_c_mask', 'kwargs': {}})
-    for fill, si, edges in (('int_fill', 0, False), ('int_fill', 1, True), ('nan', 1, False), ('none', 0, True)):
-        out.append({'name': f'mask_from_face_indexes[{fill}, start_index={si}, {"with" if edges else "without"} edges]', 'fn': 'scn_mesh_mask',
+    for fill, si, edges in (('int_fill', 0, False), ('int_fill', 1, True), ('nan', 1, False), ('none', 0, True), ('int_fill', 0, 'derived')):
+        out.append({'name': f'mask_from_face_indexes[{fill}, start_index={si}, {"with" if edges else "without"} edges{" (face-edge table derived)" if edges == "derived" else ""}]', 'fn': 'scn_mesh_mask',
                     'kwargs': {'fill': fill, 'si': si, 'edges': edges}})
     # buffer >= 1 composes buffer_faces (below) `buffer` times before mask_from_face_indexes; the composed scenario exceeds the solver budget,
     # the two functions are verified separately and the composition is exercised by the native stand-in
@@ -249,17 +249,23 @@ def scn_mesh_mask(c, fill, si, edges):
     from pyvc.lib.numpy_ import INT64, NDArray
     from contracts.ugrid import FILL_KEY
     it = new_interp(use=[FILL_KEY])           # sensible_fill_value through its contract (verified by C10)
-    has_edges = edges
-    ds = inputs.ugrid_mesh(c, fill=fill, start_index=si, edges='both' if has_edges else 'none', tables=('face_edge',) if has_edges else ())
+    has_edges = bool(edges)
+    derived = edges == 'derived'        # the mesh stores its edges (edge-node table) but no face-edge table: that one is derived
+    ds = inputs.ugrid_mesh(c, fill=fill, start_index=si, edges='both' if has_edges else 'none', tables=('face_edge',) if has_edges and not derived else ())
     info = ds.info
     tabs = {}
     if has_edges:
         t = Table(c, 'face_edge', info['nface'], info['maxn'], 'int_fill', si, False, 'nface', 'maxn', info['nedge'])
-        ds._vars['face_edge'] = t.variable
+        if not derived:
+            ds._vars['face_edge'] = t.variable
         tabs['face_edge'] = t
         en = Table(c, 'edge_node', info['nedge'], 2, 'none', si, False, 'nedge', 'Two', info['nnode'])
         ds._vars['edge_node'] = en.variable
     topo = it.instantiate(cls(it, 'emsarray.conventions.ugrid', 'Mesh2DTopology'), [ds], {})
+    if derived:
+        from pyvc.lib.numpy_ import INT32
+        # callee contract (C10): the derived face-edge table, rows padded with missing entries
+        topo.attrs['face_edge_array'] = NDArray((info['nface'], info['maxn']), lambda i: t.val(i[0], i[1]), INT32, lambda i: mk_bool(zint(i[1]) >= zint(t.cnt(i[0]))))
     keepF = c.fresh_fn('keep_face', z3.IntSort(), z3.BoolSort())
     selF = Selection(info['nface'], lambda k: mk_bool(keepF(zint(k))), name='kept_face')
     face_indexes = NDArray((selF.count,), lambda i: selF.sel(i[0]), INT64)
